@@ -294,3 +294,201 @@ Proof.
   destruct Hin as [<-|Hin]; [exact Hob|].
   specialize (IH Hr s2 Hd' ob). rewrite E2 in IH. apply IH. exact Hin.
 Qed.
+
+(* ================= lock bridge to the C54 atomic model ================= *)
+Lemma conc_eq : forall (w1 a1 : bool) (r2 : N) (w2 a2 : bool) (x y z : Z),
+  x = Z.of_N r2 -> y = Z.of_N r2 -> z = (if w2 then 1%Z else 0%Z) -> w1 = w2 -> a1 = a2 ->
+  mkShared x w1 a1 false y z = conc (mkL r2 w2 a2).
+Proof. intros; subst; reflexivity. Qed.
+
+Ltac zcase :=
+  repeat match goal with
+  | |- context [(?x =? ?y)%Z] => destruct (Z.eqb_spec x y); try lia
+  end.
+
+Ltac run_call :=
+  unfold call, conc, call_from; cbn [entry is_append rd wr ap];
+  repeat (cbn [pstep set_readLevel set_readers set_writeLevel set_writing set_appending set_updating
+               readers writing appending updating readLevel writeLevel ret_of ls_op fx_op];
+          zcase).
+
+Lemma bridge_lockShared : forall l,
+  call (conc l) MIdle OpLS =
+  Some (conc (fst (lockShared l)), (if snd (lockShared l) then MShared else MIdle), snd (lockShared l)).
+Proof.
+  intros [r w a]. unfold lockShared. cbn [rd wr ap]. destruct w, a; cbn [negb orb fst snd]; run_call;
+  repeat f_equal; try (apply conc_eq; cbn; lia); try reflexivity.
+Qed.
+
+Ltac bridge := repeat f_equal; try (apply conc_eq; cbn; lia); try reflexivity; try lia.
+
+Lemma bridge_unlockShared : forall l, 0 < rd l ->
+  call (conc l) MShared OpUS = Some (conc (unlockShared l), MIdle, true).
+Proof.
+  intros [r w a] Hr. unfold unlockShared. cbn [rd wr ap] in *. destruct w, a; run_call; bridge.
+Qed.
+
+Lemma bridge_lockExclusive : forall l, (ap l = true -> wr l = true) ->
+  call (conc l) MIdle OpLX =
+  Some (conc (fst (lockExclusive l)), (if snd (lockExclusive l) then MExcl else MIdle), snd (lockExclusive l)).
+Proof.
+  intros [r w a] Hap. unfold lockExclusive. cbn [rd wr ap] in *.
+  destruct w, a; try (specialize (Hap eq_refl); discriminate); cbn [negb andb fst snd]; run_call;
+  destruct (N.eqb_spec r 0); cbn [fst snd]; bridge.
+Qed.
+
+Lemma bridge_unlockExclusive : forall l, wr l = true ->
+  call (conc l) (if ap l then MAppend else MExcl) OpUX = Some (conc (unlockExclusive l), MIdle, true).
+Proof.
+  intros [r w a] Hw. unfold unlockExclusive. cbn [rd wr ap] in *. subst w. destruct a; run_call; bridge.
+Qed.
+
+Lemma bridge_switchExclusiveToShared : forall l, wr l = true ->
+  call (conc l) (if ap l then MAppend else MExcl) OpSW = Some (conc (switchExclusiveToShared l), MShared, true).
+Proof.
+  intros [r w a] Hw. unfold switchExclusiveToShared. cbn [rd wr ap] in *. subst w. destruct a; run_call; bridge.
+Qed.
+
+Lemma bridge_startAppending : forall l, wr l = true -> ap l = false ->
+  call (conc l) MExcl OpSA = Some (conc (lockStartAppending l), MAppend, true).
+Proof.
+  intros [r w a] Hw Ha. unfold lockStartAppending. cbn [rd wr ap] in *. subst w a. run_call; bridge.
+Qed.
+
+Lemma bridge_stopAppending : forall l, wr l = true -> ap l = true ->
+  call (conc l) MAppend OpSP =
+  Some (conc (fst (stopAppending l)), (if snd (stopAppending l) then MExcl else MBusy), snd (stopAppending l)).
+Proof.
+  intros [r w a] Hw Ha. unfold stopAppending. cbn [rd wr ap fst snd] in *. subst w a. run_call;
+  destruct (N.eqb_spec r 0); bridge.
+Qed.
+
+Lemma bridge_unlockSharedAndSwitchToExclusive : forall l, 0 < rd l -> (ap l = true -> wr l = true) ->
+  call (conc l) MShared OpSX =
+  Some (conc (fst (unlockSharedAndSwitchToExclusive l)),
+        (if snd (unlockSharedAndSwitchToExclusive l) then MExcl else MIdle), snd (unlockSharedAndSwitchToExclusive l)).
+Proof.
+  intros [r w a] Hr Hap. unfold unlockSharedAndSwitchToExclusive, unlockShared. cbn [rd wr ap] in *.
+  destruct w, a; try (specialize (Hap eq_refl); discriminate); cbn [fst snd]; run_call;
+  try (destruct (N.eqb_spec (N.pred r) 0)); cbn [fst snd]; bridge.
+Qed.
+
+(* ================= shared pages ================= *)
+Lemma last_or_nil_spec : forall (c : chain), c <> [] -> c = fst (last_or_nil c) ++ [snd (last_or_nil c)].
+Proof.
+  induction c as [|s r IH]; intros H; [congruence|].
+  destruct r as [|s2 r2]; [reflexivity|].
+  specialize (IH ltac:(discriminate)).
+  change (last_or_nil (s :: s2 :: r2)) with (let '(a, b) := last_or_nil (s2 :: r2) in (s :: a, b)).
+  destruct (last_or_nil (s2 :: r2)) as [a b]. cbn [fst snd app] in *. f_equal. exact IH.
+Qed.
+
+Lemma lenN_dropN : forall {A} n (l : list A), lenN (dropN n l) = lenN l - n.
+Proof.
+  intros A n l; revert n; induction l as [|x l IH]; intros n; cbn [dropN lenN]; [lia|].
+  destruct (n =? 0) eqn:E; cbn [lenN]; [lia|]. rewrite IH. lia.
+Qed.
+
+Lemma concat_snoc : forall (c : chain) s, concat (c ++ [s]) = concat c ++ s.
+Proof. intros. rewrite concat_app. cbn. now rewrite app_nil_r. Qed.
+
+Lemma copy_to_shm_ok : forall fuel psz c data, 0 < psz -> (length data < fuel)%nat ->
+  exists c', copy_to_shm fuel psz c data = Some c' /\ concat c' = concat c ++ data.
+Proof.
+  induction fuel as [|f IH]; intros psz c data Hp Hf; [lia|].
+  destruct data as [|d0 dr]; [exists c; cbn; split; [reflexivity| now rewrite app_nil_r]|].
+  cbn [copy_to_shm]. remember (d0 :: dr) as data eqn:Ed.
+  assert (Hlen : 0 < lenN data) by (subst; cbn [lenN]; lia).
+  destruct (last_or_nil c) as [pre lastS] eqn:El.
+  assert (Hdrop : forall k, 0 < k -> (length (dropN k data) < f)%nat).
+  { intros k Hk. pose proof (lenN_dropN k data). rewrite !lenN_length in H. subst data. cbn [length] in *. lia. }
+  destruct ((psz - lenN lastS =? 0) || match c with [] => true | _ => false end) eqn:Eb.
+  - assert (Hk : 0 < N.min psz (lenN data)) by lia.
+    replace (N.min psz (lenN data) =? 0) with false by lia.
+    destruct (IH psz (c ++ [takeN (N.min psz (lenN data)) data]) (dropN (N.min psz (lenN data)) data) Hp (Hdrop _ Hk)) as [c' [E1 E2]].
+    exists c'. split; [exact E1|]. rewrite E2, concat_snoc, <- app_assoc, takeN_dropN. reflexivity.
+  - apply orb_false_iff in Eb as [Er Ec]. destruct c as [|s0 r0]; [discriminate|].
+    assert (Hk : 0 < N.min (psz - lenN lastS) (lenN data)) by lia.
+    destruct (IH psz (pre ++ [lastS ++ takeN (N.min (psz - lenN lastS) (lenN data)) data])
+                 (dropN (N.min (psz - lenN lastS) (lenN data)) data) Hp (Hdrop _ Hk)) as [c' [E1 E2]].
+    exists c'. split; [exact E1|]. rewrite E2.
+    pose proof (last_or_nil_spec (s0 :: r0) ltac:(discriminate)) as Hs. rewrite El in Hs. cbn [fst snd] in Hs.
+    rewrite Hs. rewrite !concat_snoc, <- !app_assoc, takeN_dropN. reflexivity.
+Qed.
+
+(* the writer: local object obj, `offset` bytes of it already in the chain *)
+Theorem shm_write_ok : forall psz c offset obj, 0 < psz -> concat c = takeN offset obj ->
+  exists c', shm_write psz c offset obj = Some c' /\ chain_bytes c' = obj.
+Proof.
+  intros psz c offset obj Hp Hc. unfold shm_write, chain_bytes.
+  destruct (copy_to_shm_ok (S (length obj)) psz c (dropN offset obj) Hp) as [c' [E1 E2]].
+  { pose proof (lenN_dropN offset obj). rewrite !lenN_length in H. lia. }
+  exists c'. split; [exact E1|]. rewrite E2, Hc, takeN_dropN. reflexivity.
+Qed.
+
+Lemma prefix_split : forall (pre x have rest : bytes), pre ++ x = have ++ rest -> lenN pre <= lenN have ->
+  exists m, have = pre ++ m /\ x = m ++ rest.
+Proof.
+  induction pre as [|a pre IH]; intros x have rest H Hl.
+  - exists have. split; [reflexivity| exact H].
+  - destruct have as [|b have]; [cbn [lenN] in Hl; lia|]. cbn [app] in H. injection H as -> H.
+    cbn [lenN] in Hl. destruct (IH x have rest H ltac:(lia)) as [m [-> ->]]. exists m. split; reflexivity.
+Qed.
+
+Lemma dropN_app_exact : forall (m t : bytes), dropN (lenN m) (m ++ t) = t.
+Proof.
+  induction m as [|a m IH]; intros t; cbn [lenN app dropN]; [destruct t; reflexivity|].
+  replace (N.succ (lenN m) =? 0) with false by lia. rewrite N.pred_succ. apply IH.
+Qed.
+
+Lemma copy_from_shm_ok : forall c pre have rest, pre ++ concat c = have ++ rest -> lenN pre <= lenN have ->
+  copy_from_shm c (lenN pre) have = pre ++ concat c.
+Proof.
+  induction c as [|s r IH]; intros pre have rest H Hl; cbn [copy_from_shm concat] in *.
+  - rewrite app_nil_r in *. destruct (prefix_split pre [] have rest ltac:(now rewrite app_nil_r) Hl) as [m [-> Hm]].
+    destruct m; [now rewrite app_nil_r| discriminate].
+  - destruct (lenN have <? lenN pre + lenN s) eqn:E.
+    + destruct (prefix_split pre (s ++ concat r) have rest H Hl) as [m [-> Hm]].
+      rewrite lenN_app in E.
+      assert (Hms : exists t, s = m ++ t).
+      { clear -Hm E. revert s Hm E. induction m as [|a m IHm]; intros s Hm E; [exists s; reflexivity|].
+        destruct s as [|b s]; [cbn [lenN] in E; lia|]. cbn [app] in Hm. injection Hm as -> Hm.
+        cbn [lenN] in E. destruct (IHm s Hm ltac:(lia)) as [t ->]. exists t. reflexivity. }
+      destruct Hms as [t ->].
+      replace (lenN (pre ++ m) - lenN pre) with (lenN m) by (rewrite lenN_app; lia).
+      rewrite dropN_app_exact.
+      replace (lenN pre + lenN (m ++ t)) with (lenN (pre ++ m ++ t)) by (rewrite !lenN_app; lia).
+      rewrite <- app_assoc.
+      rewrite (IH (pre ++ m ++ t) (pre ++ m ++ t) (concat r)); [now rewrite <- !app_assoc| reflexivity | lia].
+    + replace (lenN pre + lenN s) with (lenN (pre ++ s)) by (rewrite lenN_app; lia).
+      rewrite (IH (pre ++ s) have rest); [now rewrite <- app_assoc| now rewrite <- app_assoc | rewrite lenN_app; lia].
+Qed.
+
+(* the reader: whatever prefix it already holds, one copyFromShm pass gives it exactly what the chain holds *)
+Theorem shm_read_ok : forall c have rest, chain_bytes c = have ++ rest -> copy_from_shm c 0 have = chain_bytes c.
+Proof.
+  intros c have rest H. unfold chain_bytes in *.
+  pose proof (copy_from_shm_ok c [] have rest H) as E. cbn [lenN app] in E. apply E. lia.
+Qed.
+
+(* writer delivers the object in two arbitrary instalments, the reader looks after the first and after the second *)
+Theorem shm_two_looks : forall psz obj k, 0 < psz ->
+  exists c1 c2,
+    shm_write psz [] 0 (takeN k obj) = Some c1 /\
+    shm_write psz c1 (lenN (takeN k obj)) obj = Some c2 /\
+    copy_from_shm c1 0 [] = takeN k obj /\
+    copy_from_shm c2 0 (copy_from_shm c1 0 []) = obj.
+Proof.
+  intros psz obj k Hp.
+  destruct (shm_write_ok psz [] 0 (takeN k obj) Hp) as [c1 [E1 B1]]; [destruct (takeN k obj); reflexivity|].
+  destruct (shm_write_ok psz c1 (lenN (takeN k obj)) obj Hp) as [c2 [E2 B2]].
+  { unfold chain_bytes in B1. rewrite B1. rewrite lenN_takeN.
+    clear. revert k. induction obj as [|a o IH]; intros k; cbn [takeN lenN]; [reflexivity|].
+    destruct (k =? 0) eqn:E; [replace (N.min k (N.succ (lenN o)) =? 0) with true by lia; reflexivity|].
+    replace (N.min k (N.succ (lenN o)) =? 0) with false by lia. f_equal.
+    replace (N.pred (N.min k (N.succ (lenN o)))) with (N.min (N.pred k) (lenN o)) by lia. apply IH. }
+  exists c1, c2. repeat split; try assumption.
+  - rewrite (shm_read_ok c1 [] (chain_bytes c1) eq_refl). exact B1.
+  - rewrite (shm_read_ok c1 [] (chain_bytes c1) eq_refl), B1.
+    rewrite (shm_read_ok c2 (takeN k obj) (dropN k obj)); [exact B2| rewrite B2, takeN_dropN; reflexivity].
+Qed.
